@@ -707,3 +707,74 @@ def run(chk):   # noqa
     from rules import c02_fields
     c02_fields.run(chk, prog)
     _pairloop_rule(chk, Program.load("default"))
+    _nilfold_rule(chk, prog)
+
+
+def _nilfold_rule(chk, prog):
+    """`if` and `while` recognise (= nil X) / (not= nil X), compile X alone and branch on it with jump-if-nil /
+    jump-if-not-nil.  When X is a constant the branch is chosen at compile time; for the nil forms the choice depends
+    on `X is nil`, and only for the plain form on X's truthiness.  Folding a nil form through janet_truthy treats the
+    constant false like nil, so the same source gives different results depending on whether X is a constant."""
+    rule = "C02-NILFOLD"
+    chk.rule(rule, "where a special form has replaced its condition by the operand of (= nil X) / (not= nil X), the constant's truthiness decides the branch only on paths that exclude both nil forms")
+    n = 0
+    for fn in prog.tus["specials.c"].funcs.values():
+        recog = fn.calls("janetc_check_nil_form")
+        if not recog:
+            continue
+        # what each recognition assigns: the branch taken when janetc_check_nil_form(...) succeeded
+        bodies = []
+        for x in fn.nodes:
+            if x.k == "if" and any(c in recog for c in x.kids[0].walk() if c.k == "call"):
+                asg = {}
+                for y in x.kids[1].walk():
+                    if y.k == "asg" and y.op == "=" and y.kids[0].k == "ref":
+                        asg[y.kids[0].name] = strip_casts(y.kids[1])
+                bodies.append((x, asg))
+        if len(bodies) != len(recog):
+            raise AnalysisBroken("%s: janetc_check_nil_form is not the condition of an if statement at every site" % fn.name)
+        folds = [c for c in fn.calls("janet_truthy") if any(y.k == "mem" and y.field == "constant" and y.rec == "JanetSlot" for y in c.args[0].walk())]
+        # with nan-boxing janet_truthy is a macro: take the outermost node of each expansion
+        for x in fn.nodes:
+            if "janet_truthy" in x.macro_names() and (x.parent is None or "janet_truthy" not in x.parent.macro_names()) and \
+                    any(y.k == "mem" and y.field == "constant" and y.rec == "JanetSlot" for y in x.walk()):
+                folds.append(x)
+        if not folds:
+            continue
+        chk.analysed(fn)
+
+        def excludes(ps, asg):
+            for (op, l, r, toks, ln, rn) in ps:
+                if ln is None or ln.k != "ref" or ln.name not in asg:
+                    continue
+                a = asg[ln.name]
+                if op == "==" and rn is not None and rn.k in ("ref", "int") and a.k in ("ref", "int") and rn.text() != a.text():
+                    return True
+                if op == "==" and (rn is None or (rn.k == "int" and rn.v == 0)) and a.k == "int" and a.v not in (0, None):
+                    return True
+                if op == "!=" and rn is not None and rn.text() == a.text():
+                    return True
+            return False
+        IN, T = flow.condition_facts(fn)
+        res, size = {}, {}
+        for x, S in flow.states_at(fn, IN, T):
+            for c in folds:
+                # the CFG lists a conditional expression's arms and then the whole expression: judge the innermost element
+                if x is c or any(y is c for y in x.walk()) or any(y is x for y in c.walk()):
+                    sz = sum(1 for _ in x.walk()) if not any(y is x for y in c.walk()) else 0
+                    ok = bool(S) and all(all(excludes(ps, asg) for (_, asg) in bodies) for ps in S)
+                    if id(c) not in size or sz < size[id(c)]:
+                        size[id(c)], res[id(c)] = sz, ok
+                    elif sz == size[id(c)]:
+                        res[id(c)] = res[id(c)] and ok
+        for c in folds:
+            n += 1
+            chk.instance(rule)
+            if res.get(id(c)):
+                chk.ok(rule, "%s: truthiness fold at %s only where neither nil form was recognised" % (fn.name, c.loc))
+            else:
+                chk.violation(rule, "specials.c", fn.name, "truthy-fold", c.loc,
+                              "the truthiness of the constant condition decides a compile-time branch on a path on which the condition may have "
+                              "been replaced by the operand of (= nil X) / (not= nil X): for the constant false the folded branch differs "
+                              "from what the emitted jump-if-nil / jump-if-not-nil does for the same value in a register")
+    chk.floor(rule, 2, n)
